@@ -66,7 +66,10 @@ type Config[G algebra.PrimeGroupElement[G, S], S algebra.PrimeFieldElement[S]] s
 	Hook   drive.Hook
 	Group  algebra.PrimeGroup[G, S]
 	AC     accessstructures.Monotone
-	Ctxs   map[sharing.ID]*rsess.Context
+	// ACs, if set, gives a party its OWN access-structure object (same policy, independently
+	// constructed); parties without an entry use AC.
+	ACs  map[sharing.ID]accessstructures.Monotone
+	Ctxs map[sharing.ID]*rsess.Context
 }
 
 // Result is everything a check may want from one run (typed).
@@ -128,6 +131,13 @@ func freeze[M any](m map[sharing.ID]M) ds.Map[sharing.ID, M] {
 	return h.Freeze()
 }
 
+func acOf(ac accessstructures.Monotone, acs map[sharing.ID]accessstructures.Monotone, id sharing.ID) accessstructures.Monotone {
+	if a, ok := acs[id]; ok && a != nil {
+		return a
+	}
+	return ac
+}
+
 func label(labels map[sharing.ID]string, id sharing.ID) string {
 	if l, ok := labels[id]; ok && l != "" {
 		return l
@@ -170,7 +180,7 @@ func RunFull[G algebra.PrimeGroupElement[G, S], S algebra.PrimeFieldElement[S]](
 			if ctx == nil {
 				return fmt.Errorf("no session context for party %d", uint64(id))
 			}
-			p, err := rc.NewParticipant(ctx, cfg.AC, cfg.Group, &dgen.LockedReader{R: tape})
+			p, err := rc.NewParticipant(ctx, acOf(cfg.AC, cfg.ACs, id), cfg.Group, &dgen.LockedReader{R: tape})
 			if err != nil {
 				return err
 			}
